@@ -195,6 +195,11 @@ def explore(pid, cases, rep, nontrivial, extra_checks=(), keep=None, use_corpus=
     # correspondence model vs implementation: acceptance and the emitted netlist
     for i, ((d, t), r, m) in enumerate(zip(cases, res, mods)):
         iok, mok = r["ok"], m[0] == "ok"
+        if t.get("model") == "unmodelled":
+            # a construct the model does not have (stated in DESIGN 6, e.g. `xy_id_offset` on a descriptor): no
+            # correspondence is claimed for it; the certified checker decides on the real output alone
+            stats["outside_model"] += 1
+            continue
         if iok != mok:
             stats["acceptance_mismatch"] += 1
             rep.corr_broken(f"the implementation {'accepts' if iok else 'rejects (' + str(r.get('error'))[:120] + ')'} but the "
